@@ -276,6 +276,15 @@ def reorderGlyphs(font: ttLib.TTFont, new_glyph_order: List[str]):
 
     font.setGlyphOrder(new_glyph_order)
 
+    # Without an advance mapping, HVAR/VVAR address their delta sets by glyph
+    # index: make the (old) glyph index explicit so that it follows the name.
+    for tag, attr in (("HVAR", "AdvWidthMap"), ("VVAR", "AdvHeightMap")):
+        if tag in font and getattr(font[tag].table, attr, None) is None:
+            old_gids = {name: gid for gid, name in enumerate(old_glyph_order)}
+            mapping = ot.VarIdxMap()
+            mapping.mapping = {name: old_gids[name] for name in new_glyph_order}
+            setattr(font[tag].table, attr, mapping)
+
     coverage_containers = {"GDEF", "GPOS", "GSUB", "MATH"}
     for tag in coverage_containers:
         if tag in font.keys():
